@@ -1771,6 +1771,9 @@ class ListBox(Widget, WidgetContainerMixin):
             if not rows:
                 continue
 
+            if row_offset + rows <= 0:  # completely above the new page
+                continue
+
             # try selecting this widget
             pref_row = min(maxrow - row_offset - 1, rows - 1)
 
@@ -1827,6 +1830,9 @@ class ListBox(Widget, WidgetContainerMixin):
                 continue
 
             if not rows:  # never focus a 0-height widget
+                continue
+
+            if row_offset + rows <= 0:  # completely above the new page
                 continue
 
             # if completely within snap region, adjust row_offset
